@@ -343,11 +343,12 @@ func (s *socket) AddPipe(pp protocol.Pipe) error {
 		p:      pp,
 		s:      s,
 		closeQ: make(chan struct{}),
-		sendQ:  make(chan *protocol.Message, s.sendQLen),
 	}
 	pp.SetPrivate(p)
 	s.Lock()
 	defer s.Unlock()
+	// sized under the lock: SetOption may be changing the length
+	p.sendQ = make(chan *protocol.Message, s.sendQLen)
 	if s.closed {
 		return protocol.ErrClosed
 	}
